@@ -747,6 +747,20 @@ func (f *Frame) execInstr(ins ssa.Instruction, reach string, h *Heap) string {
 			vc.errorf("extract from non-tuple")
 			f.env[i] = f.freshVal("ext", i.Type(), h)
 		}
+	case *ssa.Index:
+		x := f.val(i.X)
+		k := f.val(i.Index)
+		if x.S == "Str" {
+			ok := and(app("<=", "0", k.E), app("<", k.E, app("slen", x.E)))
+			f.check("nopanic.index", implies(reach, ok), i.Pos(), "string index out of range")
+			reach = f.strengthen(reach, ok)
+			v := vc.define(f.prefix+"ch", "Int", app("sat", x.E, k.E))
+			vc.assume(and(app("<=", "0", v), app("<", v, "256")))
+			f.env[i] = Val{S: "Int", E: v, T: i.Type()}
+		} else {
+			vc.errorf("%s: index of array value unsupported", f.fn.Name())
+			f.env[i] = f.freshVal("index", i.Type(), h)
+		}
 	case *ssa.Field:
 		x := f.val(i.X)
 		si := u.structInfo(i.X.Type())
